@@ -175,7 +175,10 @@ Proof.
   assert (Hin : In it (ring s1 i)) by (rewrite E; left; reflexivity).
   specialize (HB i it Hin). destruct (inv_ring _ HI1 i it Hin) as (_ & _ & Hw & _). lia.
 Qed.
-Lemma to_nat_ql : Z.of_nat (Z.to_nat queue_len) = queue_len.
+(* side condition over the generated constant: the shutdown loop of Agent.FlushAllData walks the whole ring *)
+Lemma flush_all_steps_ok : flush_all_steps = queue_len.
+Proof. reflexivity. Qed.
+Lemma to_nat_ql : Z.of_nat (Z.to_nat flush_all_steps) = queue_len.
 Proof. reflexivity. Qed.
 Theorem flush_all_spec st :
   Inv st -> sendt st + 2 * queue_len < two32 ->
@@ -184,9 +187,9 @@ Theorem flush_all_spec st :
   Permutation (flat_map b_items (out st')) (acc st).
 Proof.
   intros HI Hb.
-  destruct (flush_all_n_empty (Z.to_nat queue_len) st HI to_nat_ql Hb) as (HI1 & Ea & Hempty).
+  destruct (flush_all_n_empty (Z.to_nat flush_all_steps) st HI to_nat_ql Hb) as (HI1 & Ea & Hempty).
   unfold flush_all. 
-  generalize dependent (flush_all_n (Z.to_nat queue_len) st). intros s1 HI1 Ea Hempty. cbv zeta.
+  generalize dependent (flush_all_n (Z.to_nat flush_all_steps) st). intros s1 HI1 Ea Hempty. cbv zeta.
   destruct (drain_inv s1 HI1) as (HI2 & Ea2 & _ & _ & _ & Er2 & _ & Ech).
   split_ands; auto.
   - intros i. rewrite Er2. apply Hempty.
